@@ -59,7 +59,7 @@ def obligations(tier):
                      defs=d + ["NOPS=%d" % nops], unwind=nops + 5, backend="cadical", encodes=["ABT_%s_set" % nm, "ABT_%s_get" % nm, "ABT_%s_free" % nm, "ABTU_hashtable_*"],
                      bounds="%d operations, 3 keys in one bucket" % nops, symbolic="operation kinds, key choice, value types, value bits", timeout=600 if tier == "thorough" else 150))
     o.append(Obl("env_init", "C20/env.c", "real ABTD_env_init with every ABT_* variable present or absent (symbolic per lookup), the ABTU_ato* family returning an error or ANY value of its type, keyword strings of 16 symbolic bytes: every numeric setting ends inside its documented range and rounding (powers of two, cache-line / bucket multiples, non-zero sizes), no wrap-around, no division by zero",
-                 unwind=130, unwindset=["strcasecmp.0:17"], flags=["--unsigned-overflow-check"], object_bits=10, backend="cadical",
+                 unwind=130, unwindset=["strcasecmp.0:17"], object_bits=10, backend="cadical",
                  encodes=["ABTD_env_init", "load_env_int", "load_env_uint32", "load_env_uint64", "load_env_size", "load_env_bool", "roundup_pow2_uint32", "roundup_pow2_size", "get_abt_env", "ABTD_env_get_stack_guard_mprotect"],
                  bounds="one ABTD_env_init; keyword strings <= 16 bytes", symbolic="presence of every variable, parser results (any value of the type or error), keyword bytes, number of cores"))
     return o
